@@ -48,7 +48,8 @@ def run(spec, cfg=None, workers=None, timeout=600, simulate=None, depth=None, co
     trace (list of raw state strings), coverage {action: (distinct,total)}, wall_s, out."""
     spec_path = os.path.join(SPEC_DIR, spec + ".tla")
     cfg_path = os.path.join(SPEC_DIR, cfg or (spec + ".cfg"))
-    if not os.path.exists(spec_path) or not os.path.exists(cfg_path):
+    ef = extra_files or {}
+    if not (os.path.exists(spec_path) or spec + ".tla" in ef) or not (os.path.exists(cfg_path) or os.path.basename(cfg_path) in ef):
         raise MachineryError("missing spec or cfg: %s %s" % (spec_path, cfg_path))
     meta = _scratch()
     try:
@@ -65,7 +66,7 @@ def run(spec, cfg=None, workers=None, timeout=600, simulate=None, depth=None, co
         spec_path = os.path.join(wd, spec + ".tla")
         cfg_path = os.path.join(wd, os.path.basename(cfg_path))
         if constants:
-            tmpcfg = os.path.join(meta, "run.cfg")
+            tmpcfg = os.path.join(wd, "run__.cfg")
             with open(cfg_path) as f:
                 txt = f.read()
             # drop overridden constants from the original text
@@ -181,3 +182,47 @@ def require_ok(res):
 
 def emitted(res, tag="EMIT"):
     return [o for (t, o) in res["emits"] if t == tag]
+
+
+def tla(o):
+    """Python value -> TLA+ literal (dict -> record, list/tuple -> sequence, set -> set)."""
+    if isinstance(o, bool):
+        return "TRUE" if o else "FALSE"
+    if isinstance(o, int):
+        return str(o)
+    if isinstance(o, str):
+        return '"%s"' % o
+    if isinstance(o, dict):
+        return "[" + ", ".join("%s |-> %s" % (k, tla(v)) for k, v in o.items()) + "]"
+    if isinstance(o, (list, tuple)):
+        return "<<" + ", ".join(tla(v) for v in o) + ">>"
+    if isinstance(o, (set, frozenset)):
+        return "{" + ", ".join(sorted(tla(v) for v in o)) + "}"
+    raise MachineryError("cannot render %r as TLA+" % (o,))
+
+
+def run_wrapped(spec, cfg, defs, **kw):
+    """Run `spec` through a generated wrapper module MC_<spec> that EXTENDS it and defines the
+    operators in `defs` (name -> TLA+ text); the cfg is `cfg` plus `NAME <- MC_NAME` substitutions.
+    This is how literal, structured constants (lists of records) are handed to TLC."""
+    cfg_path = os.path.join(SPEC_DIR, cfg)
+    with open(cfg_path) as f:
+        lines = []
+        for ln in f.read().splitlines():
+            m = re.match(r"^\s*(\w+)\s*(=|<-)", ln)
+            if m and m.group(1) in defs:
+                continue
+            lines.append(ln)
+    lines.append("CONSTANTS")
+    body = ["---------------------------- MODULE MC_%s ----------------------------" % spec, "EXTENDS %s" % spec]
+    for k, v in defs.items():
+        body.append("MC_%s == %s" % (k, v))
+        lines.append("  %s <- MC_%s" % (k, k))
+    body.append("=============================================================================")
+    extra = dict(kw.pop("extra_files", None) or {})
+    extra["MC_%s.tla" % spec] = "\n".join(body) + "\n"
+    extra["MC_%s.cfg" % spec] = "\n".join(lines) + "\n"
+    res = run("MC_%s" % spec, "MC_%s.cfg" % spec, extra_files=extra, **kw)
+    res["spec"] = spec
+    res["cfg"] = cfg
+    return res
